@@ -155,6 +155,8 @@ class Core:
         self.obligations = []
         self.obl_names = set()
         self.goal_assumptions = set()
+        self.read_log = None
+        self.spec_value_cache = {}
         self.counter = itertools.count()
         self.binders = []               # stack of (z3 var, guard)
         self.dry = 0
@@ -532,6 +534,8 @@ class Core:
         heap = st_or_heap.heap if isinstance(st_or_heap, State) else st_or_heap
         if key not in heap:
             heap[key] = self.initial_heap_arr(key)
+        if self.read_log is not None:
+            self.read_log.append((key, heap[key].get_id()))
         return heap[key]
 
     def initial_heap_arr(self, key):
